@@ -17,6 +17,7 @@ operations, dup only through lyd_dup_siblings(NULL parent) with three option set
 Both read everything from the case line and the answer line (the schema facts they need travel in a pseudo command), so a
 replay needs no other state."""
 import json
+import os
 
 import gens
 import vlib
@@ -1036,7 +1037,7 @@ class MergeKinds(Oracle):
             # opaque nodes: merging a source opaque node that is nested in an inner node, or whose value differs from the
             # matching target opaque node, aborts in the unchanged tree (known findings merge-opaque-*): only every 8th case
             # places opaque nodes freely; the others only add NEW top-level opaque subtrees to the source
-            risky = (len(L) % 8 == 3)
+            risky = (len(L) % 8 == 3) or bool(os.environ.get("C14X_OPAQUE_ALL"))
             if same:
                 es = et = plan_edits(rng, FT, S, m.ns, p_opq=0.7 if risky else 0.0)
                 FS = FT
@@ -1103,6 +1104,19 @@ class MergeKinds(Oracle):
         return L
 
     @staticmethod
+    def equal_value_names(line):
+        """the case creates two opaque siblings with different names and the same value"""
+        seen = {}
+        for c in line.split("\t"):
+            w = c.split(" ")
+            if w[0] == "xopaq" and len(w) > 4:
+                for nm in seen.setdefault((w[2], w[4]), set()):
+                    if nm != w[3]:
+                        return True
+                seen[(w[2], w[4])].add(w[3])
+        return False
+
+    @staticmethod
     def top_index(forest, k):
         """DFS index of the k-th top-level node"""
         return sum(len(flat([n])) for n in forest[:k])
@@ -1111,6 +1125,10 @@ class MergeKinds(Oracle):
         if crashed(out):
             err = getattr(self, "last_err", "") or ""
             opq = [c.split(" ")[2].split("#")[0].rstrip("^") for c in line.split("\t") if c.startswith("xopaq ")]
+            if "lyd_dup_inst_next" in err and self.equal_value_names(line):
+                return ("compare-opaque-name-ignored", "lyd_merge_*: assertion in lyd_dup_inst_next(): opaque siblings with "
+                        "different names and the same value are collected as instances of one node (lyd_compare_single() does "
+                        "not compare the names of opaque nodes): " + out)
             if "lyd_dup_inst_next" in err and opq:
                 return ("merge-opaque-nested-dup-inst", "lyd_merge_*: assertion in lyd_dup_inst_next() for an opaque source node "
                         "below an inner node: " + out)
